@@ -37,6 +37,8 @@ def termOfCall (call : String) : Term :=
 def judge (impl : String) : String :=
   match impl.splitOn " || scan=" with
   | [callsS, scan] =>
+    -- the REST provider against the in-process vault server: judged by the plaintext scan of every request alone
+    if callsS.startsWith "REST " then (if scan == "clean" then "=" else "PLAINTEXT-FOUND " ++ scan) else
     let calls := (callsS.splitOn " ; ").filter (· != "")
     let bad := calls.filter fun c => !Opaque (termOfCall c)
     if !bad.isEmpty then "ARGUMENT-NOT-OPAQUE " ++ (bad.headD "")
